@@ -401,6 +401,12 @@ def gen_history(rng, big=False):
         else:
             toks.append("F")
             break
+    # round R12d: in about a fifth of the histories the application also opens 1..3 client sessions on the SAME context
+    # (coap_new_client_session, K extra references each) anywhere in the history and keeps them until coap_free_context
+    if rng.random() < 0.2:
+        for _ in range(rng.choice([1, 1, 2, 3])):
+            stop = toks.index("F") if "F" in toks else len(toks)
+            toks.insert(rng.randrange(stop + 1), "w%d" % rng.choice([0, 0, 1, 1, 2]))
     return "sess " + " ".join(toks)
 
 
@@ -479,9 +485,20 @@ def oracle(inp, impl):
                          # call-home reference it still holds
     taken = set()        # live sessions that have been taken over (type CLIENT from then on, whoever still refers to them)
     seen_handed = set()  # sessions that were freed as CLIENT sessions: no session-deleted event is due
+    prev_lv0 = 0
     for k, (tok, outcome, evs, refs, idle, lv, clock, dq, cl) in enumerate(segs):
         c = tok[0]
         final = c == "F"
+        if c == "w" and outcome == "ok":
+            # round R12d: coap_new_client_session on the same context: ONE new session object per call (also to the same peer),
+            # no session-new / session-deleted event, never in an endpoint's table (the rows of the tables are unchanged)
+            if evs:
+                return "coap_new_client_session raised server-session events %s (event %d, %s)" % (evs, k, tok)
+            if lv[0] != prev_lv0 + 1:
+                return "coap_new_client_session: %d session objects allocated before, %d after (event %d, %s)" % (prev_lv0, lv[0], k, tok)
+            if refs != prev_refs or idle != (segs[k - 1][4] if k else (0, 0, 0)):
+                return "coap_new_client_session changed the endpoints' session tables (event %d, %s)" % (k, tok)
+        prev_lv0 = lv[0]
         if c == "T": now += int(tok[1:])
         elif c == "s": timeout = int(tok[1:]) or 300
         elif c == "m": max_idle = int(tok[1:])
@@ -551,7 +568,7 @@ def oracle(inp, impl):
                 if c == "j" and outcome == "ok" and idx == h_idx and prev_refs.get(idx, (None, 0))[0] != 1:
                     return "client session %s freed by coap_session_release while its reference count was %s (event %d, %s)" % (
                         idx, prev_refs.get(idx, (None, 0))[0], k, tok)
-                if c in "T" or c in "sm" or c == "c" or c == "h" or c == "+":
+                if c in "T" or c in "sm" or c == "c" or c == "h" or c == "+" or c == "w":
                     return "client session %s freed by an event that releases nothing (event %d, %s)" % (idx, k, tok)
                 seen_handed.add(idx); homed.discard(idx); taken.discard(idx)
                 pp = live.pop(idx)
